@@ -6,11 +6,18 @@ package proxy
 //
 // Real: proxy.serve (registration in the package-level servers map) and proxy.Shutdown(wait) over
 // 1-5 listeners of the kinds http (net/http.Server), tcp (tcp.Server + tcp.Proxy), tcp+sni
-// (tcp.Server + tcp.SNIProxy) and grpc (the unexported gRPCServer around grpc.NewServer) on
-// simulated listeners. Work items (HTTP requests, TCP/SNI tunnels, gRPC unary calls and streams)
-// start before, at and after the shutdown instant; their backends (scripted http.Handler, raw
-// upstreams, scripted gRPC handler) answer after scripted delays on the simulated clock. The
-// driver fires Shutdown at an arbitrary step of the shutdown instant.
+// (tcp.Server + tcp.SNIProxy), grpc (the unexported gRPCServer around grpc.NewServer with a scripted
+// handler) and grpc-proxy (the gRPCServer with exactly the options of main.newGrpcProxy: fabio's
+// transparent gRPC proxy - interceptor, director, connection pool - in front of a scripted gRPC
+// backend) on simulated listeners. Work items (HTTP requests, TCP/SNI tunnels, gRPC unary calls,
+// bidi streams and server-streaming calls whose client side is half-closed) start before, at and
+// after the shutdown instant; their backends (scripted http.Handler, raw upstreams, scripted gRPC
+// handler) answer after scripted delays on the simulated clock. The driver fires Shutdown at an
+// arbitrary step of the shutdown instant.
+//
+// Fault "accept error": the accept loop of a listener fails with a permanent error at a scripted
+// instant not later than the shutdown instant (Serve returns on its own while the connections it
+// has accepted still carry work); Shutdown follows, as main.go does through exit.Fatal.
 //
 // The clock moves only when nothing at all is enabled, and every scripted instant is hinted to the
 // driver, so the simulated network adds no latency: an item finishes exactly at the instant its
@@ -24,7 +31,10 @@ package proxy
 //  (1) a connection attempt made after the first quiescent point that follows the Shutdown call is
 //      refused or never served;
 //  (2) an item whose backend had it in hand before the Shutdown call and whose script finishes
-//      before t0 + wait completes normally (full response / all bytes both ways / OK + reply);
+//      before t0 + wait completes normally (full response / all bytes both ways / OK + reply),
+//      and Shutdown does not return at an instant before that item's script has finished: the
+//      process exits when Shutdown returns (main.go: the exit handler ends with proxy.Shutdown,
+//      then os.Exit), so work that is still running at that instant is cut off;
 //  (3) Shutdown has returned by t0 + wait whatever is still open.
 
 import (
@@ -37,17 +47,22 @@ import (
 	"log"
 	"net"
 	"net/http"
+	"os"
 	"sort"
 	"strings"
 	"sync"
+	"syscall"
 	"testing/synctest"
 	"time"
 
+	"github.com/go-kit/kit/metrics/discard"
+	grpc_proxy "github.com/mwitkow/grpc-proxy/proxy"
 	"google.golang.org/grpc"
 	"google.golang.org/grpc/credentials/insecure"
 	"google.golang.org/grpc/status"
 	"google.golang.org/protobuf/types/known/wrapperspb"
 
+	"github.com/fabiolb/fabio/config"
 	"github.com/fabiolb/fabio/internal/zzverif/simcore"
 	"github.com/fabiolb/fabio/internal/zzverif/simnet"
 	"github.com/fabiolb/fabio/proxy/tcp"
@@ -61,15 +76,20 @@ func init() {
 // ---------------------------------------------------------------- scenario
 
 type c18Lis struct {
-	Kind string `json:"kind"` // http | tcp | sni | grpc
+	Kind string `json:"kind"` // http | tcp | sni | grpc | grpc-proxy
 	// Addr is the listen address, exactly what clients dial: "ip:port", "[ip6]:port", "name:port", or
 	// ":port" (wildcard; clients dial it through c18WildcardVia).
 	Addr string `json:"addr"`
 	Up   string `json:"upstream,omitempty"` // tcp: the one upstream of the route of the listener's port
+	// AcceptErrAt: fault: at this instant (offset from the start of the run, never later than the shutdown
+	// instant) the listener's Accept fails with a permanent error.
+	AcceptErrAt *time.Duration `json:"accept_error_at,omitempty"`
 
-	host string
-	port int
-	srv  *c18Server
+	host   string
+	port   int
+	srv    *c18Server
+	fl     *c18FaultyListener
+	failed bool // guarded by env.mu: the accept error has been injected
 }
 
 // dialKey is the address a client of the listener connects to.
@@ -83,7 +103,12 @@ func (l *c18Lis) dialKey() string {
 type c18Item struct {
 	ID   string `json:"id"`
 	Lis  int    `json:"listener"`
-	Kind string `json:"kind"` // http | tcp | sni | grpc-unary | grpc-stream
+	// Kind: http | tcp | sni | grpc-unary | grpc-stream (bidi, the client's sending side stays open) |
+	// grpc-sstream (server-streaming: the client has half-closed after its one request)
+	Kind string `json:"kind"`
+	// Proxied: gRPC items only: the listener is fabio's transparent proxy and the scripted handler runs in
+	// the backend behind it.
+	Proxied bool `json:"through_grpc_proxy,omitempty"`
 	// Start is the instant (offset from the start of the run) at which the client connects and sends.
 	Start time.Duration `json:"start"`
 	When  string        `json:"start_vs_shutdown"` // before | same-instant | late
@@ -137,7 +162,21 @@ type c18Scenario struct {
 
 var c18Waits = []time.Duration{time.Second, 50 * time.Millisecond, 5 * time.Second, 30 * time.Second, 0}
 var c18Ats = []time.Duration{200 * time.Millisecond, 0, time.Second, 7 * time.Second}
-var c18Kinds = []string{"http", "tcp", "sni", "grpc"}
+var c18Kinds = []string{"http", "tcp", "sni", "grpc", "grpc-proxy"}
+var c18GrpcCalls = []string{"grpc-unary", "grpc-stream", "grpc-sstream"}
+
+// c18GrpcBackend is the one gRPC backend behind every grpc-proxy listener (an IP literal: no name of the
+// second simulated network is spent on it).
+const c18GrpcBackend = "10.2.0.50:9100"
+
+// label names the kind of an item in probes and signatures.
+func (it *c18Item) label() string {
+	if it.Proxied {
+		return "proxied-" + it.Kind
+	}
+	return it.Kind
+}
+
 
 // c18Hosts are the host parts of listener addresses: IP literals of both families (more than one per
 // family, so that two listeners can differ in nothing but the IP, or in nothing but the family), a name
@@ -213,8 +252,9 @@ func c18Gen(g *simcore.Tape, thorough bool) *c18Scenario {
 		it.Lis = g.Intn(nl)
 		l := sc.Listeners[it.Lis]
 		it.Kind = l.Kind
-		if l.Kind == "grpc" {
-			it.Kind = simcore.Pick(g, []string{"grpc-unary", "grpc-stream"})
+		if l.Kind == "grpc" || l.Kind == "grpc-proxy" {
+			it.Kind = simcore.Pick(g, c18GrpcCalls)
+			it.Proxied = l.Kind == "grpc-proxy"
 		}
 		it.Client = fmt.Sprintf("192.0.2.%d:5000", 10+j)
 		if strings.Contains(l.host, ":") {
@@ -324,6 +364,19 @@ func c18Gen(g *simcore.Tape, thorough bool) *c18Scenario {
 		sc.Items = append(sc.Items, it)
 	}
 	sc.End = end + time.Second
+	// fault: the accept loop of one listener (seldom of two) fails for good at the shutdown instant (fired
+	// before Shutdown), half way, three quarters or a quarter of the way to it
+	if g.Chance(30) {
+		nf := 1
+		if g.Chance(25) {
+			nf = 2
+		}
+		for k := 0; k < nf; k++ {
+			l := sc.Listeners[g.Intn(nl)]
+			at := A * time.Duration(simcore.Pick(g, []int{4, 2, 3, 1})) / 4
+			l.AcceptErrAt = &at
+		}
+	}
 	return sc
 }
 
@@ -342,6 +395,8 @@ type c18Server struct {
 
 	// guarded by e.mu
 	serving    bool
+	served     bool // Serve has returned
+	serveErr   error
 	sdEntered  bool
 	sdReturned bool
 	sdAt       time.Time
@@ -352,7 +407,67 @@ func (s *c18Server) Serve(l net.Listener) error {
 	s.e.mu.Lock()
 	s.serving = true
 	s.e.mu.Unlock()
-	return s.inner.Serve(l)
+	err := s.inner.Serve(l)
+	s.e.mu.Lock()
+	s.served, s.serveErr = true, err
+	s.e.mu.Unlock()
+	return err
+}
+
+// c18FaultyListener is a listener whose accept loop can be made to fail for good. A pump hands the
+// connections of the simulated listener over; once the fault is injected every Accept (the blocked one
+// included) returns a permanent error, and connections that still arrive before the server closes the
+// listener are reset, as a kernel resets what sits in the backlog of a socket that is closed.
+type c18FaultyListener struct {
+	net.Listener
+	ch       chan net.Conn
+	fail     chan struct{}
+	innerErr error
+}
+
+// c18AcceptErr is not temporary (net/http and grpc-go retry temporary accept errors such as EMFILE).
+var c18AcceptErr = os.NewSyscallError("accept4", syscall.ENOBUFS)
+
+func c18NewFaultyListener(inner net.Listener) *c18FaultyListener {
+	l := &c18FaultyListener{Listener: inner, ch: make(chan net.Conn), fail: make(chan struct{})}
+	go func() {
+		for {
+			c, err := inner.Accept()
+			if err != nil {
+				l.innerErr = err
+				close(l.ch)
+				return
+			}
+			select {
+			case l.ch <- c:
+			case <-l.fail:
+				if sc, ok := c.(*simnet.Conn); ok {
+					sc.Reset()
+				} else {
+					c.Close()
+				}
+			}
+		}
+	}()
+	return l
+}
+
+func (l *c18FaultyListener) Accept() (net.Conn, error) {
+	failed := &net.OpError{Op: "accept", Net: "tcp", Addr: l.Addr(), Err: c18AcceptErr}
+	select {
+	case <-l.fail:
+		return nil, failed
+	default:
+	}
+	select {
+	case c, ok := <-l.ch:
+		if !ok {
+			return nil, l.innerErr
+		}
+		return c, nil
+	case <-l.fail:
+		return nil, failed
+	}
 }
 func (s *c18Server) Shutdown(ctx context.Context) error {
 	s.e.mu.Lock()
@@ -414,6 +529,8 @@ type c18Env struct {
 	byID       map[string]*c18Item
 	byMarker   map[string]*c18Item
 	ccs        []*grpc.ClientConn
+	poolCCs    []*grpc.ClientConn // what fabio's gRPC connection pools have dialled
+	backend    *grpc.Server       // the gRPC backend behind the grpc-proxy listeners
 	stray      int
 	sdStarted  bool
 	begun      bool
@@ -753,9 +870,17 @@ func (e *c18Env) grpcCall(p *c18Peer) {
 		err = cc.Invoke(e.ctx, "/c18.Sim/Unary", in, out)
 	} else {
 		var cs grpc.ClientStream
-		cs, err = cc.NewStream(e.ctx, &grpc.StreamDesc{StreamName: "Stream", ServerStreams: true, ClientStreams: true}, "/c18.Sim/Stream")
+		if it.Kind == "grpc-sstream" {
+			cs, err = cc.NewStream(e.ctx, &grpc.StreamDesc{StreamName: "Watch", ServerStreams: true}, "/c18.Sim/Watch")
+		} else {
+			cs, err = cc.NewStream(e.ctx, &grpc.StreamDesc{StreamName: "Stream", ServerStreams: true, ClientStreams: true}, "/c18.Sim/Stream")
+		}
 		if err == nil {
 			err = cs.SendMsg(in)
+		}
+		if err == nil && it.Kind == "grpc-sstream" {
+			// the client has nothing more to send: its side of the stream is closed from now on
+			err = cs.CloseSend()
 		}
 		if err == nil && it.Stall {
 			select {
@@ -829,10 +954,43 @@ func (e *c18Env) events() []simcore.Event {
 			p.gate <- struct{}{}
 		}})
 	}
-	if !e.sdStarted && !now.Before(e.base.Add(e.sc.At)) {
+	// faults: a scripted accept error fires before Shutdown is called (it is never later than the shutdown
+	// instant; after the call the listener is closed anyway)
+	faultDue := false
+	for i, l := range e.sc.Listeners {
+		i, l := i, l
+		if l.AcceptErrAt == nil || l.failed || e.sdStarted || now.Before(e.base.Add(*l.AcceptErrAt)) {
+			continue
+		}
+		faultDue = true
+		ev = append(ev, simcore.Event{Key: fmt.Sprintf("accept-error:%d", i), Fire: func() { e.acceptError(i, l) }})
+	}
+	if !e.sdStarted && !faultDue && !now.Before(e.base.Add(e.sc.At)) {
 		ev = append(ev, simcore.Event{Key: "shutdown", Weight: 2, Fire: e.startShutdown})
 	}
 	return ev
+}
+
+// acceptError makes the accept loop of listener i fail for good.
+func (e *c18Env) acceptError(i int, l *c18Lis) {
+	e.mu.Lock()
+	l.failed = true
+	busy := false
+	for _, it := range e.sc.Items {
+		if it.Lis == i && it.entered {
+			if p := e.peerOf(it); p != nil && !p.complete {
+				busy = true
+			}
+		}
+	}
+	e.mu.Unlock()
+	e.r.Fault("accept-error")
+	e.r.Probe("accept_error_" + l.Kind)
+	if busy {
+		e.r.Probe("accept_error_with_work_in_flight")
+	}
+	e.r.Tracef("listener %d %s: Accept fails with a permanent error", i, l.Kind)
+	close(l.fl.fail)
 }
 
 func (e *c18Env) startShutdown() {
@@ -923,7 +1081,7 @@ func runC18(r *simcore.Run) {
 				r.Trouble("no ClientHello for %s", it.Name)
 				return
 			}
-		case "grpc-unary", "grpc-stream":
+		case "grpc-unary", "grpc-stream", "grpc-sstream":
 			// printable payloads: they travel as protobuf strings
 			for k := range it.reqs {
 				it.reqs[k] = []byte(fmt.Sprintf("%x", it.reqs[k]))
@@ -953,6 +1111,10 @@ func runC18(r *simcore.Run) {
 	}
 	lookup := func(host string) *route.Target { return tbl.LookupHost(host, route.Picker["rnd"]) }
 
+	if !e.grpcProxySetup() {
+		return
+	}
+
 	if sc.Tasks {
 		// closeConns ranges over a map keyed by net.Conn (native, random order): it stays one step, so
 		// that the order in which it closes the connections cannot reach the schedule
@@ -980,11 +1142,24 @@ func runC18(r *simcore.Run) {
 		case "grpc":
 			inner = &gRPCServer{server: grpc.NewServer(grpc.UnknownServiceHandler(e.grpcHandler))}
 			nw, opts = e.gnet, simnet.ListenOpts{Auto: true}
+		case "grpc-proxy":
+			gopts := e.grpcProxyOptions(i)
+			if gopts == nil {
+				return
+			}
+			inner = &gRPCServer{server: grpc.NewServer(gopts...)}
+			nw, opts = e.gnet, simnet.ListenOpts{Auto: true}
 		}
-		ln, err := nw.Listen(l.Addr, opts)
+		sln, err := nw.Listen(l.Addr, opts)
 		if err != nil {
 			r.Trouble("listen %s: %v", l.Addr, err)
 			return
+		}
+		var ln net.Listener = sln
+		if l.AcceptErrAt != nil {
+			l.fl = c18NewFaultyListener(sln)
+			ln = l.fl
+			e.d.Hint(e.base.Add(*l.AcceptErrAt))
 		}
 		l.srv = &c18Server{e: e, kind: l.Kind, inner: inner}
 		srv := l.srv
@@ -1226,6 +1401,9 @@ func (e *c18Env) judge() {
 		if !s.sdEntered {
 			r.Probe("server_not_shut_down")
 		}
+		if l.failed && s.served && s.serveErr != nil && strings.Contains(s.serveErr.Error(), c18AcceptErr.Error()) {
+			r.Probe("serve_returned_the_accept_error")
+		}
 		if s.sdEntered && (!s.sdReturned || s.sdAt.After(deadline)) {
 			blocked = append(blocked, l.Kind)
 		}
@@ -1246,7 +1424,7 @@ func (e *c18Env) judge() {
 		var open []string
 		for _, it := range sc.Items {
 			if it.entered && it.before && (it.Forever || e.base.Add(it.finish()).After(deadline)) {
-				open = append(open, it.ID+"("+it.Kind+")")
+				open = append(open, it.ID+"("+it.label()+")")
 			}
 		}
 		r.Fail("shutdown-return", "not-returned-by-deadline servers="+which,
@@ -1259,7 +1437,7 @@ func (e *c18Env) judge() {
 		f := e.base.Add(it.finish())
 		ok, how := e.outcome(it, p)
 		served := it.entered || len(p.recv) > 0 || it.code == "OK"
-		r.Tracef("item %s %s attempt=%s entered=%v before=%v finish=%s forever=%v ok=%v %s dialerr=%v", it.ID, it.Kind, p.phase, it.entered, it.before,
+		r.Tracef("item %s %s attempt=%s entered=%v before=%v finish=%s forever=%v ok=%v %s dialerr=%v", it.ID, it.label(), p.phase, it.entered, it.before,
 			it.finish(), it.Forever, ok, how, p.dialErr != nil)
 
 		// (1) nothing that connects after shutdown has begun is served
@@ -1291,35 +1469,48 @@ func (e *c18Env) judge() {
 		switch {
 		case it.Forever:
 			r.Nontrivial()
-			r.Probe("open_forever_" + it.Kind)
+			r.Probe("open_forever_" + it.label())
 			if it.Stall {
-				r.Probe("open_forever_blocked_in_write_" + it.Kind)
+				r.Probe("open_forever_blocked_in_write_" + it.label())
 			}
 		case !f.Before(deadline):
 			r.Nontrivial()
-			r.Probe("finishes_after_deadline_" + it.Kind)
+			r.Probe("finishes_after_deadline_" + it.label())
 			if ok {
 				r.Probe("finishes_after_deadline_and_completed")
 			}
 		case f.Before(e.t0):
 			r.Probe("finished_before_shutdown")
 			if !ok {
-				r.Trouble("item %s (%s) should have finished at %s, before Shutdown was called at %s, but did not complete: %s", it.ID, it.Kind, it.finish(), e.t0.Sub(e.base), how)
+				r.Trouble("item %s (%s) should have finished at %s, before Shutdown was called at %s, but did not complete: %s", it.ID, it.label(), it.finish(), e.t0.Sub(e.base), how)
 			}
 			if it.Hold && p.readDone {
 				r.Probe("idle_keepalive_closed_by_shutdown")
 			}
 		default:
 			r.Nontrivial()
-			r.Probe("in_flight_finishing_within_wait_" + it.Kind)
-			if !ok {
-				r.Fail("inflight", it.Kind+"/"+how,
+			r.Probe("in_flight_finishing_within_wait_" + it.label())
+			if sc.Listeners[it.Lis].failed {
+				r.Probe("in_flight_finishing_within_wait_on_listener_whose_accept_failed")
+			}
+			switch {
+			case !ok:
+				r.Fail("inflight", it.label()+"/"+how,
 					"%s item %s was in the backend's hands at %s, before Shutdown(%s) was called at %s, and its script finishes at %s, before the deadline %s, but it did not complete normally: %s (client received %d bytes, read error %v, status %q)",
-					it.Kind, it.ID, it.enteredAt.Sub(e.base), sc.Wait, e.t0.Sub(e.base), it.finish(), deadline.Sub(e.base), how, len(p.recv), p.readErr, it.code)
+					it.label(), it.ID, it.enteredAt.Sub(e.base), sc.Wait, e.t0.Sub(e.base), it.finish(), deadline.Sub(e.base), how, len(p.recv), p.readErr, it.code)
+			case e.sdReturned && e.sdAt.Before(f):
+				// the process exits when Shutdown returns: the item was still running then
+				lis := "listener"
+				if sc.Listeners[it.Lis].failed {
+					lis = "listener-whose-accept-failed"
+				}
+				r.Fail("inflight", it.label()+"/still-running-when-shutdown-returned "+lis,
+					"%s item %s was in the backend's hands at %s, before Shutdown(%s) was called at %s, and its script finishes at %s, before the deadline %s, but Shutdown returned already at %s, while the item was still running: fabio exits when Shutdown returns (main.go), which cuts the item off (accept error injected on its listener: %v; Shutdown of the listener's server was entered: %v)",
+					it.label(), it.ID, it.enteredAt.Sub(e.base), sc.Wait, e.t0.Sub(e.base), it.finish(), deadline.Sub(e.base), e.sdAt.Sub(e.base), sc.Listeners[it.Lis].failed, sc.Listeners[it.Lis].srv.sdEntered)
 			}
 		}
 		if ok && !it.Forever && p.complete && !p.completeAt.Equal(f) {
-			r.Trouble("timing model: item %s (%s) completed at %s, its script says %s", it.ID, it.Kind, p.completeAt.Sub(e.base), it.finish())
+			r.Trouble("timing model: item %s (%s) completed at %s, its script says %s", it.ID, it.label(), p.completeAt.Sub(e.base), it.finish())
 		}
 	}
 	if e.stray > 0 {
@@ -1328,6 +1519,84 @@ func (e *c18Env) judge() {
 }
 
 func l18Kind(sc *c18Scenario, it *c18Item) string { return sc.Listeners[it.Lis].Kind }
+
+// ---------------------------------------------------------------- fabio's transparent gRPC proxy
+
+// grpcProxySetup prepares what the grpc-proxy listeners of the run share: the route to the backend in
+// fabio's global routing table, the backend itself (the scripted handler behind a stock grpc server on the
+// second simulated network) and the dial seam of fabio's connection pool.
+func (e *c18Env) grpcProxySetup() bool {
+	need := false
+	for _, l := range e.sc.Listeners {
+		need = need || l.Kind == "grpc-proxy"
+	}
+	if !need {
+		return true
+	}
+	tbl, err := route.NewTable(bytes.NewBufferString("route add c18grpc /c18.Sim grpc://" + c18GrpcBackend + " opts \"proto=grpc\"\n"))
+	if err != nil {
+		e.r.Trouble("grpc table does not parse: %v", err)
+		return false
+	}
+	route.SetTable(tbl)
+	// the sweepers of the connection pools are endless loops: after the end of the run each leaves at the first
+	// statement past this budget (no task of this harness executes that many statements during teardown: an
+	// accept loop ends at its next Accept, a tunnel at its next read or write)
+	e.d.Sim.StopBudget = 400
+	ZZGrpcDialOptions = func() []grpc.DialOption {
+		return []grpc.DialOption{grpc.WithContextDialer(func(ctx context.Context, addr string) (net.Conn, error) {
+			return e.gnet.Dial(ctx, nil, addr, 0)
+		})}
+	}
+	ZZGrpcOnDial = func(target string, cc *grpc.ClientConn, err error) {
+		if err == nil {
+			e.mu.Lock()
+			e.poolCCs = append(e.poolCCs, cc)
+			e.mu.Unlock()
+		}
+	}
+	bl, err := e.gnet.Listen(c18GrpcBackend, simnet.ListenOpts{Auto: true})
+	if err != nil {
+		e.r.Trouble("listen %s: %v", c18GrpcBackend, err)
+		return false
+	}
+	e.backend = grpc.NewServer(grpc.UnknownServiceHandler(e.grpcHandler), grpc.MaxRecvMsgSize(8<<20))
+	go e.backend.Serve(bl)
+	return true
+}
+
+// grpcProxyOptions returns the server options of main.newGrpcProxy for listener i. They are built inside a
+// task so that the sweeper of the listener's connection pool (go cp.cleanup(), an endless loop) is a child
+// task that the teardown can end; none of its statements is a scheduling point.
+func (e *c18Env) grpcProxyOptions(i int) []grpc.ServerOption {
+	cfg := &config.Config{}
+	cfg.Proxy.Strategy = "rnd" // one target: nothing to pick
+	cfg.Proxy.Matcher = "prefix"
+	cfg.GlobCacheSize = 100
+	cfg.Proxy.GRPCMaxRxMsgSize = 4 << 20
+	cfg.Proxy.GRPCMaxTxMsgSize = 4 << 20
+	cfg.Proxy.GRPCGShutdownTimeout = 2 * time.Second
+	stats := &GrpcStatsHandler{Connect: discard.NewCounter(), Request: discard.NewHistogram(),
+		NoRoute: discard.NewCounter(), Status: discard.NewHistogram()}
+	var opts []grpc.ServerOption
+	t := e.d.Sim.Spawn(fmt.Sprintf("grpcproxy%d", i), func() {
+		ic := GrpcProxyInterceptor{Config: cfg, StatsHandler: stats, GlobCache: route.NewGlobCache(cfg.GlobCacheSize)}
+		opts = []grpc.ServerOption{
+			grpc.CustomCodec(grpc_proxy.Codec()),
+			grpc.UnknownServiceHandler(grpc_proxy.TransparentHandler(GetGRPCDirector(nil, cfg))),
+			grpc.StreamInterceptor(ic.Stream),
+			grpc.StatsHandler(stats),
+			grpc.MaxRecvMsgSize(cfg.Proxy.GRPCMaxRxMsgSize),
+			grpc.MaxSendMsgSize(cfg.Proxy.GRPCMaxTxMsgSize),
+		}
+	})
+	e.drainTasks()
+	if !t.Done() || opts == nil {
+		e.r.Trouble("the gRPC proxy options of listener %d were not built: %v", i, e.d.Sim.TaskStates())
+		return nil
+	}
+	return opts
+}
 
 func c18Uniq(s []string) []string {
 	var out []string
@@ -1360,6 +1629,7 @@ func (e *c18Env) finish() {
 	e.drainTasks()
 	e.mu.Lock()
 	ccs := e.ccs
+	pool := e.poolCCs
 	e.mu.Unlock()
 	for _, cc := range ccs {
 		cc.Close()
@@ -1369,6 +1639,17 @@ func (e *c18Env) finish() {
 			l.srv.inner.Close()
 		}
 	}
+	for _, cc := range pool {
+		cc.Close()
+	}
+	if e.backend != nil {
+		e.backend.Stop()
+	}
 	e.drainTasks()
 	e.d.Finish()
+	// process-wide state of fabio and of the dial seam must not leak into the next run
+	ZZGrpcDialOptions, ZZGrpcOnDial = nil, nil
+	if e.backend != nil {
+		route.SetTable(make(route.Table))
+	}
 }
